@@ -192,7 +192,7 @@ def oracle_side(cls, restored, shape, side, mode, pw, idA, idB, x):
                 inst = K[cls].from_serialized(inst.serialize(), params=params)
             alts = [own[1:], b"\x00" + own[1:], own[1:] + b"\x00"]
             if own[1] == 0:
-                alts += [own[2:], own[2:] + b"\x00"]
+                alts += [own[2:]]          # (own[2:] + 00 would have the right width but denotes another element: not a reflection)
             for body in alts:
                 i2 = mk0(xz)
                 i2.start()
@@ -229,6 +229,16 @@ def oracle_side(cls, restored, shape, side, mode, pw, idA, idB, x):
                     msg = bytes([sd]) + body
                 o = C.finish_outcome(inst, msg)
                 good_side = (msg[0:1] == peer_side)
+                if not good_side:
+                    # the same bytes handed over in a mutable container (what recv_into()-style transports produce)
+                    inst2 = mk(cls, x % q)
+                    inst2.start()
+                    if restored:
+                        inst2 = K[cls].from_serialized(inst2.serialize(), params=params)
+                    o2 = C.finish_outcome(inst2, bytearray(msg))
+                    if o2[0] == "key" or (cls in "AB" and o2[1] != "OffSides"):
+                        return (True, "wrongly labelled message delivered as a bytearray: class=%s restored=%d params=%s label=%s -> %s" % (
+                            cls, restored, nm, msg[:1].hex(), o2[1] if o2[0] == "exc" else "key"))
                 what = "class=%s restored=%d params=%s msg=%s(%s) -> %s" % (cls, restored, nm, msg[:1].hex(), md if len(msg) > 1 else shape, o[1] if o[0] == "exc" else "key")
                 if o[0] == "key":
                     if not good_side or body == own[1:] or len(msg) != len(own):
